@@ -25,11 +25,13 @@ func runStep(prop string, c fw.Case, env *fw.Env, post func(sc *step.Case, r *st
 			reps = 1
 		}
 		for i := 0; i < reps && !v.Violated(); i++ {
-			r = step.RunStorm(prop, &sc, env, v)
-			v.Add("storm-runs", 1)
-			if post != nil && r != nil && !r.Aborted {
-				post(&sc, r, v)
-			}
+			fw.Rep(env, i, func(env *fw.Env) {
+				r = step.RunStorm(prop, &sc, env, v)
+				v.Add("storm-runs", 1)
+				if post != nil && r != nil && !r.Aborted {
+					post(&sc, r, v)
+				}
+			})
 		}
 		v.Nontrivial = true
 	} else {
@@ -39,6 +41,22 @@ func runStep(prop string, c fw.Case, env *fw.Env, post func(sc *step.Case, r *st
 			post(&sc, r, v)
 		}
 		v.AddSig("order:" + strings.Join(sc.Order, ","))
+	}
+	if sc.Family != "" {
+		for i := range v.Findings {
+			f := &v.Findings[i]
+			if f.Status == fw.Violation && f.Class != sc.Family {
+				f.Msg = "[" + f.Class + "] " + f.Msg
+				f.Class = sc.Family
+			}
+			// families with recorded defects of the inclusive gateway: every way of
+			// diverging from the reference token game is one finding (the defects show
+			// as missing, extra or duplicated requests depending on the program)
+			if f.Status == fw.Violation && strings.HasPrefix(sc.Family, "with-inclusive") && divergence(f.Rule) {
+				f.Msg = "[" + f.Rule + "] " + f.Msg
+				f.Rule = "diverges-from-reference"
+			}
+		}
 	}
 	if r != nil {
 		v.Add("steps", r.Steps)
@@ -60,6 +78,15 @@ func conservation(sc *step.Case, r *step.Result, v *fw.V) {
 	if n != t {
 		v.Violate("token-conservation", "flows", "%d flows created but %d terminated at completion", n, t)
 	}
+}
+
+func divergence(rule string) bool {
+	for _, p := range []string{"pending-", "ends-", "storm-", "not-complete", "waiter-blocked", "noflow-error-", "vars-mismatch", "early-", "cease-count", "token-conservation"} {
+		if strings.HasPrefix(rule, p) {
+			return true
+		}
+	}
+	return false
 }
 
 func sprintf(f string, a ...any) string { return fmt.Sprintf(f, a...) }
